@@ -50,6 +50,18 @@ enum Head {
     Ty(String),
 }
 
+pub static LENIENT: std::sync::atomic::AtomicBool = std::sync::atomic::AtomicBool::new(false);
+thread_local! { pub static LOST: std::cell::RefCell<Vec<String>> = std::cell::RefCell::new(vec![]); }
+/// strict mode: exit 2.  lenient mode (second attempt of the driver): the annotation is dropped
+/// and recorded; failures of such a function are only reported when a witness replays.
+fn lost(msg: String) {
+    if LENIENT.load(std::sync::atomic::Ordering::Relaxed) {
+        LOST.with(|l| l.borrow_mut().push(msg));
+    } else {
+        die(&format!("lost anchor: {}", msg));
+    }
+}
+
 pub struct Rw<'a> {
     idx: &'a Index,
     fs: &'a FnSpec,
@@ -1004,7 +1016,7 @@ impl<'a> Rw<'a> {
                     eb.block.stmts.push(t);
                 }
             } else {
-                die(&format!("lost anchor: closure {} of {} has no block body for a hint", k, self.fs.key));
+                lost(format!("closure {} of {} has no block body for a hint", k, self.fs.key));
             }
         }
         for p in cl.inputs.iter_mut() {
@@ -1017,7 +1029,8 @@ impl<'a> Rw<'a> {
         self.used_closures.insert(k);
         self.bump("E7.closure");
         if spec.types.len() != cl.inputs.len() {
-            die(&format!("lost anchor: closure {} of {} has {} parameters, contract gives {}", k, self.fs.key, cl.inputs.len(), spec.types.len()));
+            lost(format!("closure {} of {} has {} parameters, contract gives {}", k, self.fs.key, cl.inputs.len(), spec.types.len()));
+            return;
         }
         let mut params: Vec<TokenStream> = vec![];
         let mut lets: Vec<Stmt> = vec![];
@@ -1097,7 +1110,8 @@ fn apply_patches(src: &FnSrc, fs: &FnSpec, stats: &mut BTreeMap<String, usize>) 
     for (reason, from, to) in &fs.patches {
         let n = text.matches(from.as_str()).count();
         if n != 1 {
-            die(&format!("lost anchor: patch `{}` ({}) matches {} times in {} ({}:{})", from, reason, n, fs.key, src.file, src.line));
+            lost(format!("patch `{}` ({}) matches {} times in {} ({}:{})", from, reason, n, fs.key, src.file, src.line));
+            continue;
         }
         text = text.replacen(from.as_str(), to, 1);
         *stats.entry("E10.patch".to_string()).or_insert(0) += 1;
@@ -1282,22 +1296,22 @@ pub fn emit_fn(idx: &Index, fs: &FnSpec, tags: &[String], debug_view: bool, star
         // every loop/closure/hint contract must have found its anchor
         for k in fs.loops.keys() {
             if !rw.used_loops.contains(k) {
-                die(&format!("lost anchor: loop {} of {} not found", k, fs.key));
+                lost(format!("loop {} of {} not found", k, fs.key));
             }
         }
         for k in fs.closures.keys() {
             if !rw.used_closures.contains(k) {
-                die(&format!("lost anchor: closure {} of {} not found", k, fs.key));
+                lost(format!("closure {} of {} not found", k, fs.key));
             }
         }
         for (n, _) in fs.annots.iter() {
             if !rw.used_annots.contains(n) {
-                die(&format!("lost anchor: local `{}` of {} not found", n, fs.key));
+                lost(format!("local `{}` of {} not found", n, fs.key));
             }
         }
         for (k, (w, tags, _)) in fs.hints.iter().enumerate() {
             if sel(tags, rw.tags) && !rw.used_hints.contains(&k) {
-                die(&format!("lost anchor: hint position `{}` of {} not found", w, fs.key));
+                lost(format!("hint position `{}` of {} not found", w, fs.key));
             }
         }
     }
@@ -1425,6 +1439,7 @@ pub fn emit_fn(idx: &Index, fs: &FnSpec, tags: &[String], debug_view: bool, star
         "patches": fs.patches.iter().map(|(r, f, t)| serde_json::json!({"reason": r, "from": f, "to": t})).collect::<Vec<_>>(),
         "from_macro": src.from_macro,
         "spec": format!("{}:{}", fs.spec_file, fs.spec_line),
+        "lost_anchors": LOST.with(|l| l.borrow_mut().drain(..).collect::<Vec<String>>()),
     });
     let _ = &rw.owner;
     (s, rec)
